@@ -167,11 +167,13 @@ def coq_eval(exprs, imports, workdir, tag="cases", shard=250, scope="string_scop
 
     def run(item):
         fn, n = item
-        rc, log = sh(["timeout", str(timeout), "coqc"] + COQFLAGS + ["-Q", COQ, "FA", "-Q", workdir, "WK", fn], cwd=workdir, timeout=timeout + 30)
+        rc, log = sh(["bash", "-c", 'ulimit -s unlimited 2>/dev/null || ulimit -s 1000000 2>/dev/null; exec "$@"', "coqc-big-stack",
+                      "timeout", str(timeout), "coqc"] + COQFLAGS + ["-Q", COQ, "FA", "-Q", workdir, "WK", fn], cwd=workdir, timeout=timeout + 30)
         vals = re.findall(r'=\s*"([^"]*)"\s*:\s*string', log, re.S)
         vals = [re.sub(r"\s+", "", v) for v in vals]
         if rc != 0 or len(vals) != n:
-            return [None] * n, log[-1500:]
+            em = re.search(r"(File [^\n]*\n(?:Error|Warning)?[^\n]*\n?[^\n]*\n?[^\n]*)", log)
+            return [None] * n, (f"rc={rc} got {len(vals)} of {n} values; " + (em.group(1) if em else "") + " ... " + log[-600:])
         return vals, ""
 
     out, errs = [], []
